@@ -22,7 +22,7 @@ fn c14_program(rng: &mut Rng) -> String {
     let mut s = String::new();
     s.push_str("function mutate(o, v) -> o.tag <- v;\nfunction setp(a) -> begin a <- 99; a end;\nfunction ident(o) -> o;\n");
     // one literal instantiated on many chains, and an overriding literal
-    s.push_str("function wrap(p) -> object extends p begin let w = 1; end;\nfunction over(p, v) -> object extends p begin function m0() -> v; function mv() -> v; end;\n");
+    s.push_str("function wrap(p) -> object extends p begin let w = 1; end;\nfunction over(p, v) -> object extends p begin let val = v; function m0() -> this.val; function mv() -> this.val; end;\n");
     let base = rng.below(6);
     let base_expr = match base {
         0 => "null".to_string(),
